@@ -350,8 +350,8 @@ example : ((Rd.newDefault ⟨[7, 8], List.replicate 99 ⟨0, none⟩ ++ [⟨2, n
 
 /-- bytes reader: an over-ask fails with io.EOF and consumes nothing; Release keeps the tail -/
 example : ((Rd.newBytes [1,2,3,4,5] 5).trace
-    [.next 2, .peek 4, .release, .readLen, .next 3, .next 1]).1 =
-    [(.next 2, .bytes [1,2]), (.peek 4, .fail (some .eof)), (.release, .done), (.readLen, .len 0),
+    [.next 2, .peek 4, .release (some .eof), .readLen, .next 3, .next 1]).1 =
+    [(.next 2, .bytes [1,2]), (.peek 4, .fail (some .eof)), (.release (some .eof), .done), (.readLen, .len 0),
      (.next 3, .bytes [3,4,5]), (.next 1, .fail (some .eof))] := by decide
 
 end Verif.C04
